@@ -18,7 +18,7 @@
 import os
 
 from drivers import mdexec, strace_kill
-from harness import common, mdtrace
+from harness import common, mdtrace, tlc
 
 from . import mdshared as S
 from . import repotraces
@@ -160,6 +160,28 @@ def main(tier):
                 rep.machinery(f"TLC {name}: {r.error[:800]}")
             elif r.violated:
                 rep.violation("model_property_violated", {"run": name, "violated": r.violated, "counterexample": r.counterexample[-3:]}, model=True, violated=r.violated)
+        # ---- 1b. root module: engine state (XL history buffer, RNG stream) derived through crash/resume ----
+        rootc = S.model_consts(max_crash=2 if tier == "quick" else 3, crash_pcs={"scr", "tmp", "tmp2", "replace", "next", "step", "vec"}, flush_rows=100)
+        root_runs = []
+        for kk in ((3, 6) if tier == "quick" else (3, 4, 5, 6, 7, 8, 9)):
+            for damped in (False, True):
+                c = dict(rootc, K=kk, Damped=damped, XSlotMode="rev", XResumeMode="minus1", RngMode="restore", StepsSet={kk + 3}, CkptSet={1, 2, 3, kk + 1})
+                rr = tlc.run("PyseqmMC", dict(spec="PSpec", constants=c, substitutions={"Configs": "Lat"}, invariants=["EngineStateExact", "CkptCovered", "H5Equal", "ExactAtEnd"], properties=["PFinishes", "Aligned"]), scratch=scratch, timeout=3000)
+                root_runs.append({"k": kk, "damped": damped, "distinct": rr.distinct, "ok": rr.ok})
+                states += rr.distinct
+                trans += rr.generated
+                if rr.error:
+                    rep.machinery("TLC Pyseqm: " + rr.error[:400])
+                elif rr.violated:
+                    rep.violation("model_property_violated", {"module": "Pyseqm", "k": kk, "damped": damped, "violated": rr.violated}, model=True, violated=rr.violated)
+        root_mut = {}
+        for name, over in (("resume_plain", {"XResumeMode": "plain"}), ("rng_not_restored", {"RngMode": "fresh"}), ("slot_fwd", {"XSlotMode": "fwd"})):
+            c = dict(rootc, K=3, Damped=True, XSlotMode="rev", XResumeMode="minus1", RngMode="restore", StepsSet={6}, CkptSet={1, 2, 3})
+            c.update(over)
+            rm = tlc.run("PyseqmMC", dict(spec="PSpec", constants=c, substitutions={"Configs": "Lat"}, invariants=["EngineStateExact"]), scratch=scratch)
+            root_mut[name] = rm.violated
+            if not rm.violated:
+                rep.machinery(f"vacuity: Pyseqm mutant {name} not refuted")
         # ---- 2. schedule export (spec -> code) -----------------------------------------
         n1, n2, n3 = (70, 50, 24) if tier == "quick" else (1200, 900, 300)
         sch1, r1 = S.export_schedules(ex, scratch, 1)
@@ -277,7 +299,7 @@ def main(tier):
             "tierB_real_es": {"runs": len(rjobs), "accepted": rn_acc, "tolerance": TOL, "largest_deviation_from_reference": maxdev,
                               "engines": sorted({c["engine"] + ("+exc" if "excited_states" in c.get("params", {}) else "") for c, _ in rjobs})},
             "samples": samples or [{"note": "no accepted trace"}],
-            "tlc_runs": tlc_summary,
+            "tlc_runs": tlc_summary, "root_module_runs": root_runs, "root_module_mutants_refuted": root_mut,
             "schedules_exported": {"one_crash": len(sch1), "multi_crash": len(multi), "tdm": len(sch3)},
             "evaluations": len(jobs),
             "distinct_nontrivial": nontriv,
